@@ -39,7 +39,7 @@ class Fault(object):
 
 class PipeCore(object):
     def __init__(self, dev, rec=None, clock=None, frag=None, wcap=None, stall='raise', tick=0.0, default_timeout=10.0, fault=None,
-                 log_io=False, exc_timeout=None, rtype=None):
+                 log_io=False, exc_timeout=None, rtype=None, write_none=False):
         self.dev = dev
         self.rec = rec or dev.rec
         self.clock = clock or VClock()
@@ -52,6 +52,7 @@ class PipeCore(object):
         self.log_io = log_io
         self.rtype = rtype        # what bulk_read hands out: None (bytes) | 'bytearray' | 'array' (array('B'), as PyUSB does) | 'memoryview' (a view of a receive buffer that is reused by the next read)
         self._rbuf = None
+        self.write_none = write_none   # a sendall-style transport: bulk_write sends everything and returns None (the library still accepts that)
         self.exc_timeout = exc_timeout or timeout_class()
         self.cur = b''
         self.cur_meta = None
@@ -96,6 +97,9 @@ class PipeCore(object):
                     raise Watchdog('a transport call without a timeout on a stalled transport (call %d, %s)' % (k, kind))
                 self.clock.advance(max(t_, 0))
                 raise self.exc_timeout('injected stall at call %d (%s): timed out after %s s' % (k, kind, t_))
+            if f == 'blocking':
+                import errno
+                raise BlockingIOError(errno.EAGAIN, 'injected EAGAIN at call %d (%s): the transport would block' % (k, kind))
             if f == 'epipe':
                 import errno
                 raise BrokenPipeError(errno.EPIPE, 'injected broken pipe at call %d (%s)' % (k, kind))     # what a socket raises once the peer has gone away
@@ -206,6 +210,8 @@ class PipeCore(object):
         if r == 'cancel_after':
             import asyncio
             raise asyncio.CancelledError()
+        if self.write_none and acc == len(data):
+            return None
         return acc
 
     def _host_bytes(self, chunk):
